@@ -623,6 +623,23 @@ def memory(ctx: Any) -> List[Ob]:
 RULES.append(memory)
 
 
+@rule('C15.LIVENESS', 'N', expect_min=2)
+def liveness(ctx: Any) -> List[Ob]:
+    """`The instance keeps working`: the answer queues drain.  A queued answer group always has a flush pending, and the flush
+    re-arms itself for exactly the time remaining to the next deadline, in the unit the event loop expects (the C12.WIRING
+    obligations about the flush timer) -- a wake-up scheduled in seconds where milliseconds were meant leaves every later
+    aggregated answer in a queue nobody drains."""
+    from .c12 import wiring
+
+    out = [o for o in wiring.fn(ctx) if any(k in o.statement for k in ('re-arms itself', 'flush timer armed', 'waits until the first group must go'))]
+    for o in out:
+        o.rule = 'C15.LIVENESS'
+    return out
+
+
+RULES.append(liveness)
+
+
 @rule('C15.READONLY', 'N', expect_min=3)
 def readonly(ctx: Any) -> List[Ob]:
     """Answering one datagram does not change how the next one is answered: the functions that assemble an outgoing message
